@@ -1,6 +1,17 @@
 package main
 
-// Structural obligations decided on the SSA without a solver (DESIGN §2.9).
+// Structural obligations decided on the SSA without a solver (DESIGN §2.9). Each is configured by a line in
+// /verif/props/<id>.json "structural": ["<kind> <args...>", ...] and is an obligation like any other.
+
+import (
+	"fmt"
+	"go/token"
+	"go/types"
+	"sort"
+	"strings"
+
+	"golang.org/x/tools/go/ssa"
+)
 
 type StructObl struct {
 	Label  string
@@ -17,6 +28,335 @@ func (P *Program) structuralObligations(prop string, meta PropMeta) []StructObl 
 	return out
 }
 
+func (P *Program) allRepoFuncs() []*ssa.Function {
+	var fs []*ssa.Function
+	seen := map[*ssa.Function]bool{}
+	var add func(fn *ssa.Function)
+	add = func(fn *ssa.Function) {
+		if fn == nil || seen[fn] || fn.Blocks == nil {
+			return
+		}
+		seen[fn] = true
+		fs = append(fs, fn)
+		for _, a := range fn.AnonFuncs {
+			add(a)
+		}
+	}
+	for _, fn := range P.fnByKey {
+		add(fn)
+	}
+	sort.Slice(fs, func(i, j int) bool { return P.fnKey(fs[i]) < P.fnKey(fs[j]) })
+	return fs
+}
+
+// isLibrary: non-test, non-mock code of the repository (the code the properties are about).
+func (P *Program) isLibrary(fn *ssa.Function) bool {
+	if fn.Pkg == nil {
+		return false
+	}
+	p := fn.Pkg.Pkg.Path()
+	if !P.repoPkgs[p] {
+		return false
+	}
+	for _, bad := range []string{"/test", "/testhelpers", "/test_poc", "/mocks", "/builders", "/spec/"} {
+		if strings.Contains(p+"/", bad+"/") || strings.HasSuffix(p, bad) {
+			return false
+		}
+	}
+	pos := P.fset.Position(fn.Pos())
+	return !strings.HasSuffix(pos.Filename, "_test.go")
+}
+
 func (P *Program) runStructural(spec string) []StructObl {
-	return nil
+	fs := strings.Fields(spec)
+	if len(fs) == 0 {
+		return nil
+	}
+	label := strings.Join(fs, " ")
+	fail := func(format string, a ...interface{}) []StructObl {
+		return []StructObl{{Label: label, What: spec, OK: false, Detail: fmt.Sprintf(format, a...)}}
+	}
+	ok := func(detail string) []StructObl {
+		return []StructObl{{Label: label, What: spec, OK: true, Detail: detail}}
+	}
+	switch fs[0] {
+	case "nonblocking-send":
+		// nonblocking-send <funcKey> <chanField>: every select in the function that sends on a channel read from the
+		// named field has a default arm (it can never block the loop)
+		fn := P.fnByKey[fs[1]]
+		if fn == nil {
+			return fail("function %s not found", fs[1])
+		}
+		found := 0
+		for _, b := range fn.Blocks {
+			for _, ins := range b.Instrs {
+				if sel, isSel := ins.(*ssa.Select); isSel {
+					for _, st := range sel.States {
+						if st.Dir == types.SendOnly && strings.Contains(P.describeValue(st.Chan), fs[2]) {
+							found++
+							if sel.Blocking {
+								return fail("select at %s sends on %s without a default arm", P.fset.Position(sel.Pos()), fs[2])
+							}
+						}
+					}
+				}
+				if snd, isSend := ins.(*ssa.Send); isSend && strings.Contains(P.describeValue(snd.Chan), fs[2]) {
+					return fail("blocking send on %s at %s", fs[2], P.fset.Position(snd.Pos()))
+				}
+			}
+		}
+		if found == 0 {
+			return fail("no select sending on %s found in %s (the forwarding site disappeared)", fs[2], fs[1])
+		}
+		return ok(fmt.Sprintf("%d non-blocking send site(s)", found))
+	case "cancellable":
+		// cancellable <funcKey>: every blocking channel operation of the function sits in a select that also receives
+		// from a Done() channel or from a channel parameter/variable whose name contains "ancel"
+		fn := P.fnByKey[fs[1]]
+		if fn == nil {
+			return fail("function %s not found", fs[1])
+		}
+		n := 0
+		for _, b := range fn.Blocks {
+			for _, ins := range b.Instrs {
+				switch x := ins.(type) {
+				case *ssa.Select:
+					if !x.Blocking {
+						continue
+					}
+					n++
+					has := false
+					for _, st := range x.States {
+						d := P.describeValue(st.Chan)
+						if st.Dir == types.RecvOnly && (strings.Contains(d, "Done()") || strings.Contains(strings.ToLower(d), "cancel")) {
+							has = true
+						}
+					}
+					if !has {
+						return fail("blocking select at %s has no cancellation arm", P.fset.Position(x.Pos()))
+					}
+				case *ssa.Send:
+					return fail("bare channel send at %s", P.fset.Position(x.Pos()))
+				case *ssa.UnOp:
+					if x.Op == token.ARROW {
+						d := P.describeValue(x.X)
+						if !strings.Contains(d, "Done()") {
+							return fail("bare channel receive from %s at %s", d, P.fset.Position(x.Pos()))
+						}
+					}
+				}
+			}
+		}
+		return ok(fmt.Sprintf("%d blocking select(s), all cancellable", n))
+	case "no-writer":
+		// no-writer <pkgname.Var>: the package variable is never assigned by library code outside its initialiser
+		for _, fn := range P.allRepoFuncs() {
+			if !P.isLibrary(fn) || fn.Name() == "init" {
+				continue
+			}
+			for _, b := range fn.Blocks {
+				for _, ins := range b.Instrs {
+					if st, isStore := ins.(*ssa.Store); isStore {
+						if g, isG := st.Addr.(*ssa.Global); isG && g.Pkg.Pkg.Name()+"."+g.Name() == fs[1] {
+							return fail("%s is assigned in %s", fs[1], P.fnKey(fn))
+						}
+					}
+				}
+			}
+		}
+		return ok("no assignment found")
+	case "no-caller":
+		// no-caller <funcKey>: no library code calls the function
+		target := P.fnByKey[fs[1]]
+		if target == nil {
+			return fail("function %s not found", fs[1])
+		}
+		for _, fn := range P.allRepoFuncs() {
+			if !P.isLibrary(fn) {
+				continue
+			}
+			for _, b := range fn.Blocks {
+				for _, ins := range b.Instrs {
+					if c, isCall := ins.(ssa.CallInstruction); isCall {
+						if c.Common().StaticCallee() == target {
+							return fail("%s is called by %s", fs[1], P.fnKey(fn))
+						}
+					}
+					for _, op := range ins.Operands(nil) {
+						if *op == ssa.Value(target) {
+							if _, isCall := ins.(ssa.CallInstruction); !isCall {
+								return fail("%s is used as a value in %s", fs[1], P.fnKey(fn))
+							}
+						}
+					}
+				}
+			}
+		}
+		return ok("no library caller")
+	case "guarded-by":
+		// guarded-by <pkg.Type> <field,field> <lockexpr>: every library function that touches one of the fields of an
+		// object it did not allocate itself takes the lock (Lock/RLock on a value whose description contains
+		// <lockexpr>) in its entry block before the first access and defers the matching unlock
+		fields := map[string]bool{}
+		for _, f := range strings.Split(fs[2], ",") {
+			fields[f] = true
+		}
+		checked := 0
+		for _, fn := range P.allRepoFuncs() {
+			if !P.isLibrary(fn) {
+				continue
+			}
+			var firstAccess token.Pos
+			locked, deferred := false, false
+			violation := ""
+			for _, b := range fn.Blocks {
+				for _, ins := range b.Instrs {
+					switch x := ins.(type) {
+					case *ssa.Call:
+						if callee := x.Call.StaticCallee(); callee != nil && (callee.Name() == "Lock" || callee.Name() == "RLock") && len(x.Call.Args) > 0 && strings.Contains(P.describeValue(x.Call.Args[0]), fs[3]) {
+							if b.Index == 0 {
+								locked = true
+							}
+						}
+					case *ssa.Defer:
+						if callee := x.Call.StaticCallee(); callee != nil && (callee.Name() == "Unlock" || callee.Name() == "RUnlock") {
+							deferred = true
+						}
+					case *ssa.FieldAddr:
+						st, named := structOfPtrType(x.X.Type())
+						if st == nil || P.sorts.typeName(named) != fs[1] || !fields[st.Field(x.Field).Name()] {
+							continue
+						}
+						if _, fresh := x.X.(*ssa.Alloc); fresh {
+							continue // constructor initialising its own object
+						}
+						if !locked && violation == "" {
+							violation = fmt.Sprintf("%s accesses %s.%s at %s without holding %s", P.fnKey(fn), fs[1], st.Field(x.Field).Name(), P.fset.Position(x.Pos()), fs[3])
+						}
+						if !firstAccess.IsValid() {
+							firstAccess = x.Pos()
+						}
+					}
+				}
+			}
+			if firstAccess.IsValid() {
+				checked++
+				if violation != "" {
+					return fail("%s", violation)
+				}
+				if !deferred {
+					return fail("%s takes %s but does not defer the unlock", P.fnKey(fn), fs[3])
+				}
+			}
+		}
+		if checked == 0 {
+			return fail("no access to %s.%s found (renamed?)", fs[1], fs[2])
+		}
+		return ok(fmt.Sprintf("%d accessor function(s), all hold the lock", checked))
+	case "not-reachable":
+		// not-reachable <targetFuncKey> from <rootFuncKey,...>: the static call graph (direct calls, closures created,
+		// method values) of the roots does not contain the target
+		target := P.fnByKey[fs[1]]
+		if target == nil || len(fs) < 4 {
+			return fail("bad spec or function %s not found", fs[1])
+		}
+		for _, rk := range strings.Split(fs[3], ",") {
+			root := P.fnByKey[rk]
+			if root == nil {
+				return fail("root %s not found", rk)
+			}
+			seen := map[*ssa.Function]bool{}
+			var path []string
+			var dfs func(fn *ssa.Function) bool
+			dfs = func(fn *ssa.Function) bool {
+				if fn == target {
+					return true
+				}
+				if seen[fn] || fn.Blocks == nil {
+					return false
+				}
+				seen[fn] = true
+				for _, b := range fn.Blocks {
+					for _, ins := range b.Instrs {
+						var next []*ssa.Function
+						if c, isCall := ins.(ssa.CallInstruction); isCall {
+							if callee := c.Common().StaticCallee(); callee != nil {
+								next = append(next, callee)
+							}
+						}
+						for _, op := range ins.Operands(nil) {
+							switch v := (*op).(type) {
+							case *ssa.Function:
+								next = append(next, v)
+							case *ssa.MakeClosure:
+								if cf, isF := v.Fn.(*ssa.Function); isF {
+									next = append(next, cf)
+								}
+							}
+						}
+						for _, nf := range next {
+							if dfs(nf) {
+								path = append(path, P.fnKey(fn))
+								return true
+							}
+						}
+					}
+				}
+				return false
+			}
+			if dfs(root) {
+				return fail("%s reaches %s via %s", rk, fs[1], strings.Join(path, " <- "))
+			}
+		}
+		return ok("target not in the static call graph of the roots")
+	}
+	return fail("unknown structural obligation kind %q", fs[0])
+}
+
+func structOfPtrType(t types.Type) (*types.Struct, types.Type) {
+	if p, ok := t.Underlying().(*types.Pointer); ok {
+		if st, ok := p.Elem().Underlying().(*types.Struct); ok {
+			return st, p.Elem()
+		}
+	}
+	return nil, nil
+}
+
+// describeValue renders an SSA value as a short source-like path (field names, calls) for matching in specs.
+func (P *Program) describeValue(v ssa.Value) string {
+	switch x := v.(type) {
+	case *ssa.UnOp:
+		if x.Op == token.MUL {
+			return P.describeValue(x.X)
+		}
+	case *ssa.FieldAddr:
+		if st, _ := structOfPtrType(x.X.Type()); st != nil {
+			return P.describeValue(x.X) + "." + st.Field(x.Field).Name()
+		}
+	case *ssa.Field:
+		if st, ok := x.X.Type().Underlying().(*types.Struct); ok {
+			return P.describeValue(x.X) + "." + st.Field(x.Field).Name()
+		}
+	case *ssa.Alloc:
+		return x.Comment
+	case *ssa.Parameter:
+		return x.Name()
+	case *ssa.FreeVar:
+		return x.Name()
+	case *ssa.Call:
+		if x.Call.IsInvoke() {
+			return P.describeValue(x.Call.Value) + "." + x.Call.Method.Name() + "()"
+		}
+		if callee := x.Call.StaticCallee(); callee != nil {
+			if len(x.Call.Args) > 0 && callee.Signature.Recv() != nil {
+				return P.describeValue(x.Call.Args[0]) + "." + callee.Name() + "()"
+			}
+			return callee.Name() + "()"
+		}
+	case *ssa.Global:
+		return x.Name()
+	case *ssa.Extract:
+		return P.describeValue(x.Tuple)
+	}
+	return v.Name()
 }
